@@ -7,7 +7,12 @@ MCNext ==
   \/ \E d \in Descs : Edit(d) /\ last' = <<"Edit", d>>
   \/ \E f \in BOOLEAN : Render(f) /\ last' = <<"Render", f>>
   \/ RenderPatch /\ last' = <<"RenderPatch">>
+  \/ \E d \in ExportDescs, ow \in BOOLEAN : Export(d, ow) /\ last' = <<"Export", d, ow>>
 MCSpec == MCInit /\ [][MCNext]_<<pvars, last>>
 (* an unforced render never changes sources that exist (stated on the command just issued) *)
 UnforcedRenderKeeps == [][(last'[1] = "Render" /\ ~last'[2] /\ tree # 0) => tree' = tree]_<<pvars, last>>
+(* a second `naunet init` changes nothing at all *)
+SecondInitIsInert == [][(last'[1] = "Init" /\ cfg # 0) => UNCHANGED pvars]_<<pvars, last>>
+(* an export without overwrite never touches an existing project *)
+PlainExportKeeps == [][(last'[1] = "Export" /\ ~last'[3] /\ cfg # 0) => UNCHANGED pvars]_<<pvars, last>>
 =============================================================================
